@@ -51,6 +51,9 @@ type c10Fix struct {
 	seq      int
 	by       *hdClient
 	byPub    string
+	offPub   string // the session without connection: public id, resume id, numeric id in the digest
+	offPriv  string
+	offSid   uint64
 	fix      map[int]*c10StateFix
 	apiRes   chan int
 	pending  string
@@ -173,10 +176,48 @@ func (f *c10Fix) ensureBystander() {
 	c.take()
 }
 
+// A member of the bystander's room whose connection was interrupted: the session stays
+// (housekeeping does not run in this hub, so it never expires) and everything sent to
+// it is stored for the resume.
+func (f *c10Fix) ensureOffline() {
+	if f.offPub != "" {
+		if sess := f.sys.hub.GetSessionByPublicId(f.offPub); sess != nil && sess.GetRoom() != nil {
+			if cs, ok := sess.(*ClientSession); ok && cs.GetClient() == nil {
+				return
+			}
+		}
+		f.t.Fatalf("C10 fixture: the session without connection is gone or changed")
+	}
+	c := f.newConn()
+	f.offPub, f.offPriv = f.helloV1(c, c10OffUser)
+	f.join(c, c10RoomId, nil)
+	f.sys.settle()
+	f.drop(c)
+	f.sys.settle()
+	f.offSid = f.sys.sidOf(f.offPub)
+	if sess := f.sys.hub.GetSessionByPublicId(f.offPub); sess == nil || sess.GetRoom() == nil || f.offSid == 0 {
+		f.t.Fatalf("C10 fixture: the session without connection was not kept")
+	}
+	if f.by != nil {
+		f.by.take()
+	}
+}
+
+// number of messages stored for the session without connection (as the digest counts them)
+func (f *c10Fix) offPending(d *hdDigest) int {
+	for i := range d.Sessions {
+		if d.Sessions[i].Sid == f.offSid {
+			return d.Sessions[i].Pending
+		}
+	}
+	return -1
+}
+
 var c10AllPerms = []string{"publish-audio", "publish-video", "publish-screen", "publish-media", "control", "transient-data"}
 
 func (f *c10Fix) ensure(st int) *c10StateFix {
 	f.ensureBystander()
+	f.ensureOffline()
 	if sf := f.fix[st]; sf != nil && !sf.conn.isClosed() {
 		return sf
 	}
@@ -278,9 +319,17 @@ func (f *c10Fix) ensurePending(sf *c10StateFix) {
 	sf.conn.take()
 }
 
-func (f *c10Fix) digestText() string {
-	b, _ := json.Marshal(f.sys.digest())
-	return string(b)
+// the digest without the queue of the session without connection, and the length of that queue
+func (f *c10Fix) digestText() (string, int) {
+	d := f.sys.digest()
+	n := f.offPending(d)
+	for i := range d.Sessions {
+		if d.Sessions[i].Sid == f.offSid {
+			d.Sessions[i].Pending = 0
+		}
+	}
+	b, _ := json.Marshal(d)
+	return string(b), n
 }
 
 // ---- projections -----------------------------------------------------------------------------------------
@@ -417,8 +466,8 @@ func (f *c10Fix) run(s *c10Step, emitStart func()) {
 		rid = "noresumeid"
 	}
 	burl := f.sys.backendUrl(0) + "/ocs/v2.php/apps/spreed/api/v1/signaling/backend"
-	subst := strings.NewReplacer(c10Sid, sid, c10Pid, pid, c10Bid, f.byPub, c10Rid, rid, c10Room, c10RoomId, c10Burl, burl, c10Bbase, f.sys.backendUrl(0))
-	rev := strings.NewReplacer(sid, c10Sid, pid, c10Pid, f.byPub, c10Bid, rid, c10Rid, burl, c10Burl, f.sys.backendUrl(0), c10Bbase, c10RoomId, c10Room)
+	subst := strings.NewReplacer(c10Sid, sid, c10Pid, pid, c10Bid, f.byPub, c10Rid, rid, c10Room, c10RoomId, c10Burl, burl, c10Bbase, f.sys.backendUrl(0), c10Oid, f.offPub)
+	rev := strings.NewReplacer(sid, c10Sid, pid, c10Pid, f.byPub, c10Bid, f.offPub, c10Oid, rid, c10Rid, burl, c10Burl, f.sys.backendUrl(0), c10Bbase, c10RoomId, c10Room)
 	data, binary := s.frame(subst)
 	if s.K == "doc" {
 		s.Orc = c10Oracles(s.Doc, subst)
@@ -426,7 +475,7 @@ func (f *c10Fix) run(s *c10Step, emitStart func()) {
 	f.sys.settle()
 	sf.conn.take()
 	f.by.take()
-	before := f.digestText()
+	before, offBefore := f.digestText()
 	emitStart()
 	mt := websocket.TextMessage
 	if binary {
@@ -462,7 +511,13 @@ func (f *c10Fix) run(s *c10Step, emitStart func()) {
 	if sess := f.sys.hub.GetSessionByPublicId(f.byPub); sess == nil || sess.GetRoom() == nil {
 		s.ByOk = false
 	}
-	s.DSame = before == f.digestText()
+	after, offAfter := f.digestText()
+	s.DSame = before == after
+	s.Off = offAfter - offBefore
+	if offBefore < 0 || offAfter < 0 {
+		s.Off = -1000 // the session without connection disappeared
+		f.offPub = ""
+	}
 	s.Api = 0
 	if s.St == 4 && f.pending != "" {
 		select {
